@@ -271,7 +271,7 @@ pub fn scalar_tv() -> impl Strategy<Value = TV> {
         2 => prop_oneof![Just(0i64), Just(-1), Just(i64::MAX), Just(i64::MIN), any::<i64>()].prop_map(TV::Int),
         2 => prop_oneof![Just(0.0f64), Just(-0.5), Just(1e300), Just(3.25), Just(1e-7), (-1000i32..1000).prop_map(|x| x as f64 / 8.0)].prop_map(TV::Float),
         2 => any::<bool>().prop_map(TV::Bool),
-        1 => prop_oneof![Just("1979-05-27T07:32:00"), Just("2026-10-02"), Just("1979-05-27T00:32:00.999")].prop_map(|s| TV::Datetime(s.to_string())),
+        1 => prop_oneof![Just("1979-05-27T07:32:00"), Just("2026-10-02")].prop_map(|s| TV::Datetime(s.to_string())),
     ]
 }
 
